@@ -1,6 +1,7 @@
 package zv
 
 import (
+	"fmt"
 	"go/ast"
 	"go/constant"
 	"go/token"
@@ -61,150 +62,215 @@ func checkC20(c *Ctx) {
 	c.Rule("R20.4", "LevelFlag registers the variable it returns; Set parses, Get reads", 3)
 
 	lvNamed := c.Named(CorePath, "Level")
-	sfd, pk := c.DeclOf(CorePath, "Level", "String")
-	cfd, _ := c.DeclOf(CorePath, "Level", "CapitalString")
-	ufd, _ := c.DeclOf(CorePath, "Level", "unmarshalText")
-	if !c.Anchor("R20.1", "zapcore.Level.String/CapitalString/unmarshalText", lvNamed != nil && sfd != nil && cfd != nil && ufd != nil) {
+	strFn := c.Method(CorePath, "Level", "String")
+	capFn := c.Method(CorePath, "Level", "CapitalString")
+	ut := c.Method(CorePath, "Level", "UnmarshalText")
+	mt := c.Method(CorePath, "Level", "MarshalText")
+	if !c.Anchor("R20.1", "zapcore.Level.String/CapitalString/UnmarshalText/MarshalText", lvNamed != nil && strFn != nil && capFn != nil && ut != nil && mt != nil) {
 		return
 	}
-	info := pk.TypesInfo
 	minL, _ := c.ConstVal(CorePath, "_minLevel")
 	maxL, _ := c.ConstVal(CorePath, "_maxLevel")
-	names, ndef := switchReturnLits(info, sfd)
-	caps, cdef := switchReturnLits(info, cfd)
-	// unmarshalText: case "lit", ...: *l = CONST
-	parse := map[string]string{}
-	defaultStores, defaultFalse := false, false
-	var usw *ast.SwitchStmt
-	ast.Inspect(ufd.Body, func(n ast.Node) bool {
-		if s, ok := n.(*ast.SwitchStmt); ok && usw == nil {
-			usw = s
-		}
-		return true
-	})
-	storesOutside := 0
-	if usw != nil {
-		c.Check(types.ExprString(usw.Tag) == "string(text)", "R20.1", "zapcore.Level.unmarshalText", "switch-tag", usw.Pos(), "the text is compared as is: switch %s", types.ExprString(usw.Tag))
-		for _, s := range usw.Body.List {
-			cc := s.(*ast.CaseClause)
-			var assigned string
-			nassign := 0
-			for _, st := range cc.Body {
-				ast.Inspect(st, func(n ast.Node) bool {
-					if as, ok := n.(*ast.AssignStmt); ok && len(as.Lhs) == 1 && types.ExprString(as.Lhs[0]) == "*l" {
-						nassign++
-						if k := ConstOf(info, as.Rhs[0]); k != nil {
-							assigned = k.Name()
-						}
-					}
-					if rs, ok := n.(*ast.ReturnStmt); ok && cc.List == nil && len(rs.Results) == 1 && types.ExprString(rs.Results[0]) == "false" {
-						defaultFalse = true
-					}
-					return true
-				})
-			}
-			if cc.List == nil {
-				defaultStores = nassign > 0
-				continue
-			}
-			for _, e := range cc.List {
-				if tv, ok := info.Types[e]; ok && tv.Value != nil && tv.Value.Kind() == constant.String {
-					if nassign == 1 && assigned != "" {
-						parse[constant.StringVal(tv.Value)] = assigned
-					} else {
-						parse[constant.StringVal(tv.Value)] = "?"
-					}
-				}
-			}
-		}
-		// stores to *l outside the switch
-		ast.Inspect(ufd.Body, func(n ast.Node) bool {
-			if as, ok := n.(*ast.AssignStmt); ok && len(as.Lhs) == 1 && types.ExprString(as.Lhs[0]) == "*l" {
-				if as.Pos() < usw.Pos() || as.Pos() > usw.End() {
-					storesOutside++
-				}
-			}
-			return true
-		})
-	}
-	nLevels := 0
+	it := NewInterp(c)
+	// --- the name tables, evaluated for all 256 level values
+	byVal := map[int64]string{}
 	for _, k := range c.ConstsOfType(CorePath, lvNamed) {
 		v, _ := ConstObjInt(k)
 		if v < minL || v > maxL || strings.HasPrefix(k.Name(), "_") {
 			continue
 		}
-		nLevels++
-		nm, ok := names[k.Name()]
-		c.Check(ok && nm != "", "R20.1", "zapcore.Level.String", "name/"+k.Name(), sfd.Pos(), "%s has the literal name %q", k.Name(), nm)
-		c.Check(caps[k.Name()] == strings.ToUpper(nm) && nm != "", "R20.1", "zapcore.Level.CapitalString", "capital/"+k.Name(), cfd.Pos(), "capital name %q is the upper case of %q", caps[k.Name()], nm)
-		c.Check(parse[nm] == k.Name(), "R20.1", "zapcore.Level.unmarshalText", "parse/"+k.Name(), ufd.Pos(), "text %q parses to %s (arm assigns %s)", nm, k.Name(), parse[nm])
+		byVal[v] = k.Name()
 	}
-	c.Check(nLevels == int(maxL-minL+1), "R20.1", "zapcore.Level", "level-count", lvNamed.Obj().Pos(), "%d named level constants cover [_minLevel,_maxLevel] = %d values", nLevels, maxL-minL+1)
-	// only documented extra spellings
-	var extra []string
-	valid := map[string]bool{}
-	for _, n := range names {
-		valid[n] = true
+	c.Check(len(byVal) == int(maxL-minL+1), "R20.1", "zapcore.Level", "level-count", lvNamed.Obj().Pos(), "%d named level constants cover [_minLevel,_maxLevel] = %d values", len(byVal), maxL-minL+1)
+	names := map[int64]string{}
+	seen := map[string]int64{}
+	dup, badDefault := "", ""
+	evalErr := ""
+	for v := int64(-128); v <= 127; v++ {
+		rs, err1 := it.Run(strFn, []IVal{IInt(v)})
+		rc, err2 := it.Run(capFn, []IVal{IInt(v)})
+		if err1 != nil || err2 != nil || len(rs) != 1 || len(rc) != 1 || rs[0].K != ivStr || rc[0].K != ivStr {
+			evalErr = fmt.Sprintf("Level(%d): %v %v %v %v", v, rs, err1, rc, err2)
+			break
+		}
+		nm, cp := rs[0].S, rc[0].S
+		if kn, ok := byVal[v]; ok {
+			names[v] = nm
+			if o, d := seen[nm]; d {
+				dup = byVal[o] + "/" + kn
+			}
+			seen[nm] = v
+			c.Check(nm != "" && nm == strings.ToLower(nm) && !strings.HasPrefix(nm, "Level("), "R20.1", "zapcore.Level.String", "name/"+kn, strFn.Pos(), "%s has the lower-case name %q", kn, nm)
+			c.Check(cp == strings.ToUpper(nm) && nm != "", "R20.1", "zapcore.Level.CapitalString", "capital/"+kn, capFn.Pos(), "capital name %q is the upper case of %q", cp, nm)
+		} else if nm != fmt.Sprintf("Level(%d)", v) || cp != fmt.Sprintf("LEVEL(%d)", v) {
+			badDefault = fmt.Sprintf("Level(%d) prints as %q / %q", v, nm, cp)
+		}
 	}
-	for lit, k := range parse {
-		if valid[lit] {
-			continue
+	if evalErr != "" {
+		c.Und("R20.1", "zapcore.Level.String", "evaluates", strFn.Pos(), "cannot evaluate the name tables: %s", evalErr)
+		return
+	}
+	c.Check(dup == "", "R20.1", "zapcore.Level.String", "distinct", strFn.Pos(), "level names are pairwise distinct %s", dup)
+	c.Check(badDefault == "", "R20.1", "zapcore.Level.String", "default-forms", strFn.Pos(), "evaluated for all 256 values: every level outside [_minLevel,_maxLevel] prints as Level(%%d) / LEVEL(%%d) %s", badDefault)
+
+	// --- parsing, evaluated over a corpus built from the names, their case and
+	// whitespace variants, the documented aliases, junk, and every string
+	// constant that occurs in the parsing code
+	const untouched = 77
+	parse := func(text string) (lvl int64, accepted bool, err error) {
+		cell := &ICell{V: IInt(untouched)}
+		res, e := it.Run(ut, []IVal{IPtr(cell), IBytes(text)})
+		if e != nil {
+			return 0, false, e
+		}
+		if len(res) != 1 {
+			return 0, false, fmt.Errorf("unexpected results %v", res)
 		}
 		switch {
-		case lit == "warning" && k == "WarnLevel", lit == "" && k == "InfoLevel":
-		default:
-			extra = append(extra, lit+"→"+k)
+		case res[0].K == ivNil:
+			if cell.V.K != ivInt {
+				return 0, false, fmt.Errorf("target holds %s", cell.V)
+			}
+			return cell.V.I, true, nil
+		case res[0].NonNil:
+			if cell.V.K != ivInt {
+				return 0, false, fmt.Errorf("target holds %s", cell.V)
+			}
+			return cell.V.I, false, nil
 		}
+		return 0, false, fmt.Errorf("cannot tell whether %s is nil", res[0])
 	}
-	sort.Strings(extra)
-	c.Check(len(extra) == 0 && parse["warning"] == "WarnLevel" && parse[""] == "InfoLevel", "R20.1", "zapcore.Level.unmarshalText", "aliases", ufd.Pos(), "besides the level names only \"warning\"→WarnLevel and \"\"→InfoLevel are accepted (others: %v)", extra)
-	// distinct names
-	seen := map[string]string{}
-	dup := ""
-	for k, n := range names {
-		if o, ok := seen[n]; ok {
-			dup = o + "/" + k
-		}
-		seen[n] = k
-	}
-	c.Check(dup == "", "R20.1", "zapcore.Level.String", "distinct", sfd.Pos(), "level names are pairwise distinct %s", dup)
-	c.Check(strings.Contains(ndef, `"Level(%d)"`) && strings.Contains(cdef, `"LEVEL(%d)"`), "R20.1", "zapcore.Level.String", "default-forms", sfd.Pos(), "out-of-range levels print as Level(%%d) / LEVEL(%%d) (%s, %s)", ndef, cdef)
-
-	// ---------------- R20.2 ----------------
-	c.Check(usw != nil && !defaultStores && defaultFalse && storesOutside == 0, "R20.2", "zapcore.Level.unmarshalText", "stores-only-in-matching-arms", ufd.Pos(), "the target is written only inside matching arms; the default arm returns false without storing (stores outside the switch: %d)", storesOutside)
-	ut := c.Method(CorePath, "Level", "UnmarshalText")
-	if c.Anchor("R20.2", "zapcore.Level.UnmarshalText", ut != nil) {
-		name := ut.String()
-		var calls []*ssa.Call
-		for _, cl := range Calls(ut) {
-			if IsCallTo(cl, "(*go.uber.org/zap/zapcore.Level).unmarshalText") {
-				calls = append(calls, cl.(*ssa.Call))
+	want := func(text string) (int64, bool) {
+		lower := strings.ToLower(text)
+		for v, nm := range names {
+			if nm == lower {
+				return v, true
 			}
 		}
-		ok := len(calls) == 2
-		d1, d2 := "", ""
-		if ok {
-			d1, d2 = Desc(calls[0].Call.Args[1]), Desc(calls[1].Call.Args[1])
-			ok = d1 == "text" && d2 == "ToLower(text)" && Dominates(calls[0], calls[1]) &&
-				HasAtom(Guards(calls[1]), func(s string) bool { return s == "!"+Desc(calls[0]) })
-		}
-		c.Check(ok, "R20.2", name, "exact-then-lowercase", ut.Pos(), "tries the exact text, then exactly bytes.ToLower(text) and nothing else (args %q, %q)", d1, d2)
-		for k, r := range Returns(ut) {
-			v := RetVals(r)[0]
-			if IsNilConst(Strip(v)) {
-				continue
+		wv, iv := int64(-99), int64(-99)
+		for v, kn := range byVal {
+			if kn == "WarnLevel" {
+				wv = v
 			}
-			atoms := AtomStrings(Guards(r))
-			if len(calls) == 2 && strings.Contains(Desc(v), "Errorf") {
-				has := 0
-				for _, a := range atoms {
-					if a == "!"+Desc(calls[0]) || a == "!"+Desc(calls[1]) {
-						has++
-					}
+			if kn == "InfoLevel" {
+				iv = v
+			}
+		}
+		if lower == "warning" {
+			return wv, true
+		}
+		if text == "" {
+			return iv, true
+		}
+		return untouched, false
+	}
+	title := func(s string) string {
+		if s == "" {
+			return s
+		}
+		return strings.ToUpper(s[:1]) + s[1:]
+	}
+	alt := func(s string) string {
+		b := []byte(s)
+		for i := range b {
+			if i%2 == 1 {
+				b[i] = strings.ToUpper(string(b[i]))[0]
+			}
+		}
+		return string(b)
+	}
+	corpus := map[string]bool{"": true, " ": true, "\t": true, "\n": true, "warning": true, "bogus": true, "level": true, "0": true, "-1": true, "Level(0)": true, "LEVEL(3)": true, "\x00": true, "trace": true, "all": true, "off": true, "none": true}
+	for _, fn := range Region(ut) {
+		AllInstrs(fn, func(i ssa.Instruction) {
+			for _, op := range i.Operands(nil) {
+				if k, ok := (*op).(*ssa.Const); ok && k.Value != nil && k.Value.Kind() == constant.String {
+					corpus[constant.StringVal(k.Value)] = true
 				}
-				c.Check(has == 2, "R20.2", name, "error-iff-both-fail#"+itoa(k+1), r.Pos(), "the unrecognised-level error is returned exactly when both attempts failed (guards %v)", atoms)
+			}
+		})
+	}
+	for _, nm := range names {
+		corpus[nm] = true
+	}
+	var texts []string
+	for s := range corpus {
+		for _, v := range []string{s, strings.ToUpper(s), strings.ToLower(s), title(s), alt(s), " " + s, s + " ", s + "\n", s + "x", "x" + s} {
+			texts = append(texts, v)
+		}
+		if len(s) > 1 {
+			texts = append(texts, s[:len(s)-1], s[1:])
+		}
+	}
+	sort.Strings(texts)
+	texts = uniqSorted(texts)
+	perLevel := map[int64][]string{}
+	var wrongAccept, wrongReject, modified, undec []string
+	nAcc, nRej := 0, 0
+	for _, t := range texts {
+		got, acc, err := parse(t)
+		if err != nil {
+			undec = append(undec, fmt.Sprintf("%q: %v", t, err))
+			continue
+		}
+		wv, wacc := want(t)
+		switch {
+		case wacc && (!acc || got != wv):
+			perLevel[wv] = append(perLevel[wv], fmt.Sprintf("%q→(%d,%v)", t, got, acc))
+			wrongReject = append(wrongReject, fmt.Sprintf("%q", t))
+		case !wacc && acc:
+			wrongAccept = append(wrongAccept, fmt.Sprintf("%q→%s", t, byVal[got]))
+		case !wacc && got != untouched:
+			modified = append(modified, fmt.Sprintf("%q leaves %d", t, got))
+		}
+		if wacc {
+			nAcc++
+		} else {
+			nRej++
+		}
+	}
+	if len(undec) > 0 {
+		c.Und("R20.1", "zapcore.Level.UnmarshalText", "evaluates", ut.Pos(), "cannot evaluate the parser on %d of %d texts, e.g. %s (unmodelled: %v)", len(undec), len(texts), undec[0], it.Unknown)
+	} else {
+		for v, kn := range byVal {
+			c.Check(len(perLevel[v]) == 0, "R20.1", "zapcore.Level.UnmarshalText", "parse/"+kn, ut.Pos(), "the name %q of %s, in any letter case, parses to %s (wrong: %v)", names[v], kn, kn, perLevel[v])
+		}
+		c.Check(len(wrongAccept) == 0, "R20.1", "zapcore.Level.UnmarshalText", "aliases", ut.Pos(), "evaluated on %d texts (%d to accept, %d to reject): besides the level names only \"warning\" (any case) and the empty string are accepted (wrongly accepted: %v)", len(texts), nAcc, nRej, wrongAccept)
+		// ---------------- R20.2 ----------------
+		c.Check(len(modified) == 0, "R20.2", "zapcore.Level.UnmarshalText", "rejects-without-modifying", ut.Pos(), "every rejected text leaves the target as it was (violations: %v)", modified)
+		c.Check(len(wrongReject) == 0, "R20.2", "zapcore.Level.UnmarshalText", "case-insensitive", ut.Pos(), "names and the warning alias are accepted in lower, upper, title and mixed case (wrongly rejected: %v)", wrongReject)
+	}
+	// round trip through MarshalText
+	var rtBad []string
+	for v, kn := range byVal {
+		res, err := it.Run(mt, []IVal{IInt(v)})
+		if err != nil || len(res) != 2 || res[0].K != ivBytes {
+			rtBad = append(rtBad, fmt.Sprintf("%s: MarshalText = %v %v", kn, res, err))
+			continue
+		}
+		got, acc, err := parse(res[0].S)
+		if err != nil || !acc || got != v {
+			rtBad = append(rtBad, fmt.Sprintf("%s → %q → (%d,%v,%v)", kn, res[0].S, got, acc, err))
+		}
+	}
+	c.Check(len(rtBad) == 0, "R20.1", "zapcore.Level.MarshalText", "round-trip", mt.Pos(), "UnmarshalText(MarshalText(l)) == l for every level (%v)", rtBad)
+	// the other text entry points funnel into UnmarshalText
+	for _, e := range []struct{ recv, name string }{{"Level", "Set"}, {"", "ParseLevel"}, {"Level", "UnmarshalText"}} {
+		var fn *ssa.Function
+		if e.recv == "" {
+			fn = c.Func(CorePath, e.name)
+		} else {
+			fn = c.Method(CorePath, e.recv, e.name)
+		}
+		if fn == nil || fn == ut {
+			continue
+		}
+		calls := false
+		for _, cl := range CallsDeep(fn) {
+			if StaticCallee(cl) == ut {
+				calls = true
 			}
 		}
+		c.Check(calls, "R20.2", fn.String(), "parses-via-UnmarshalText", fn.Pos(), "%s parses through Level.UnmarshalText (so the table above is the only one)", fn.Name())
 	}
 	// SetLevel call sites fed from parsed input
 	for _, tgt := range []struct{ pkg, recv, name string }{{ZapPath, "AtomicLevel", "UnmarshalText"}, {ZapPath, "", "ParseAtomicLevel"}} {
@@ -266,7 +332,7 @@ func checkC20(c *Ctx) {
 		}
 		// every Encode of an error body is preceded by a 4xx WriteHeader
 		nErr := 0
-		for _, cl := range Calls(sh) {
+		for _, cl := range CallsDeep(sh) {
 			if !IsCallTo(cl, "(*encoding/json.Encoder).Encode") {
 				continue
 			}
@@ -275,11 +341,12 @@ func checkC20(c *Ctx) {
 			if !ok {
 				continue
 			}
+			owner := cl.Parent()
 			tn := TypeName(mi.X.Type())
 			if !strings.Contains(tn, "errorResponse") {
 				// success body: no WriteHeader with an error code may precede it
 				bad := false
-				for _, w := range Calls(sh) {
+				for _, w := range CallsDeep(sh) {
 					if IsCallTo(w, "(net/http.ResponseWriter).WriteHeader") && Dominates(w, cl) {
 						bad = true
 					}
@@ -287,15 +354,55 @@ func checkC20(c *Ctx) {
 				c.Check(!bad, "R20.3", name, "success-body-200/"+itoa(c.Fset.Position(cl.Pos()).Line-c.Fset.Position(sh.Pos()).Line), cl.Pos(), "a success body is not preceded by an error status")
 				continue
 			}
-			nErr++
-			var code int64 = -1
-			for _, w := range Calls(sh) {
-				if IsCallTo(w, "(net/http.ResponseWriter).WriteHeader") && Dominates(w, cl) && w.Block() == cl.Block() {
-					code, _ = ConstInt(Args(w)[1])
+			// the places where this error body is produced: the Encode itself, or the call sites of the helper/closure it sits in
+			produced := []ssa.Instruction{cl}
+			if owner != sh {
+				produced = nil
+				for _, st := range sitesOf(owner) {
+					produced = append(produced, st)
 				}
 			}
-			c.Check(code >= 400 && code < 500, "R20.3", name, "4xx-before-error-body#"+itoa(nErr), cl.Pos(), "an error body is preceded by WriteHeader(%d) with a 4xx status", code)
-			c.Check(!ExistsPath(sh, cl, func(i ssa.Instruction) bool { return len(sets) == 1 && i == ssa.Instruction(sets[0]) }, nil), "R20.3", name, "no-set-after-error#"+itoa(nErr), cl.Pos(), "no SetLevel is reachable after an error response")
+			var codes []int64
+			for _, w := range Calls(owner) {
+				if !IsCallTo(w, "(net/http.ResponseWriter).WriteHeader") || !Dominates(w, cl) || w.Parent() != owner {
+					continue
+				}
+				wa := Args(w)[1]
+				if k, ok := ConstInt(wa); ok {
+					codes = append(codes, k)
+					continue
+				}
+				if prm, ok := Strip(wa).(*ssa.Parameter); ok && owner != sh {
+					for pi, pp := range owner.Params {
+						if pp != prm {
+							continue
+						}
+						for _, st := range sitesOf(owner) {
+							if k, ok := ConstInt(st.Common().Args[pi]); ok {
+								codes = append(codes, k)
+							} else {
+								codes = append(codes, -1)
+							}
+						}
+					}
+				}
+			}
+			for range produced {
+				nErr++
+			}
+			okCode := len(codes) > 0
+			for _, k := range codes {
+				okCode = okCode && k >= 400 && k < 500
+			}
+			key := itoa(nErr)
+			c.Check(okCode, "R20.3", name, "4xx-before-error-body#"+key, cl.Pos(), "an error body is preceded by WriteHeader with a 4xx status (%v)", codes)
+			noSet := true
+			for _, from := range produced {
+				if ExistsPath(sh, from, func(i ssa.Instruction) bool { return len(sets) == 1 && i == ssa.Instruction(sets[0]) }, nil) {
+					noSet = false
+				}
+			}
+			c.Check(noSet, "R20.3", name, "no-set-after-error#"+key, cl.Pos(), "no SetLevel is reachable after an error response")
 		}
 		if nErr < 2 {
 			c.Bad("R20.3", name, "error-bodies", sh.Pos(), "expected error responses for bad PUT and other methods, found %d", nErr)
@@ -426,7 +533,7 @@ func c20SetGuarded(c *Ctx, rule string, fn *ssa.Function) {
 		atoms := AtomStrings(Guards(cl))
 		ok := false
 		for _, a := range atoms {
-			if strings.HasSuffix(a, " == nil") && (strings.HasPrefix(a, "UnmarshalText(") || strings.HasPrefix(a, "ParseLevel(")) {
+			if c20ParseOK(a) {
 				ok = true
 			}
 		}
@@ -437,14 +544,19 @@ func c20SetGuarded(c *Ctx, rule string, fn *ssa.Function) {
 	}
 }
 
+// c20ParseOK: the control atom "the level parser returned a nil error".
+func c20ParseOK(a string) bool {
+	return strings.HasSuffix(a, " == nil") && (strings.HasPrefix(a, "UnmarshalText(") || strings.HasPrefix(a, "ParseLevel("))
+}
+
 // c20ReturnsParsedOnlyOnSuccess: a (Level, error) function returns a nil
 // error only under the parse's err == nil, and the zero level with errors.
 func c20ReturnsParsedOnlyOnSuccess(c *Ctx, rule string, fn *ssa.Function) {
 	for k, r := range Returns(fn) {
 		rv := RetVals(r)
 		if IsNilConst(Strip(rv[1])) {
-			ok := HasAtom(Guards(r), func(s string) bool { return strings.HasPrefix(s, "UnmarshalText(") && strings.HasSuffix(s, " == nil") })
-			c.Check(ok, rule, fn.String(), "success-after-parse#"+itoa(k+1), r.Pos(), "a nil error is returned only when UnmarshalText succeeded")
+			ok := HasAtom(Guards(r), c20ParseOK)
+			c.Check(ok, rule, fn.String(), "success-after-parse#"+itoa(k+1), r.Pos(), "a nil error is returned only when the level parser (Level.UnmarshalText / ParseLevel) succeeded")
 		} else {
 			v, isC := ConstInt(rv[0])
 			c.Check(isC && v == 0, rule, fn.String(), "error-returns-zero#"+itoa(k+1), r.Pos(), "error returns carry the zero level, not a half-parsed one")
